@@ -86,6 +86,10 @@ Proof. exact generated_deps. Qed.
 Theorem c08_plain_structures_unchanged_u2f_requests : plain_hold raw_decls plain_u2f_requests = true.
 Proof. exact generated_plain_u2f_requests. Qed.
 
+(* the cargo features are independent switches with nothing on by default: a feature set of the model means exactly its cfgs *)
+Theorem c08_feature_table_unchanged : features_hold cargo_features = true.
+Proof. exact generated_features. Qed.
+
 Eval vm_compute in "ASSUMPTIONS c08_decision_table". Print Assumptions c08_decision_table.
 Eval vm_compute in "ASSUMPTIONS c08_never_panics". Print Assumptions c08_never_panics.
 Eval vm_compute in "ASSUMPTIONS c08_class_first". Print Assumptions c08_class_first.
@@ -100,3 +104,4 @@ Eval vm_compute in "ASSUMPTIONS c08_raw_apdu_decision". Print Assumptions c08_ra
 Eval vm_compute in "ASSUMPTIONS c08_modelled_functions_unchanged_u2f_parse". Print Assumptions c08_modelled_functions_unchanged_u2f_parse.
 Eval vm_compute in "ASSUMPTIONS c08_modelled_dependencies_pinned". Print Assumptions c08_modelled_dependencies_pinned.
 Eval vm_compute in "ASSUMPTIONS c08_plain_structures_unchanged_u2f_requests". Print Assumptions c08_plain_structures_unchanged_u2f_requests.
+Eval vm_compute in "ASSUMPTIONS c08_feature_table_unchanged". Print Assumptions c08_feature_table_unchanged.
